@@ -255,17 +255,34 @@ def _run(case, out, rig, server, cfg, variant, phone):
         rig.top.raise_on_nth = case["upper_raises"]
         rig.top._n_since = 0
         out.label("layer_above_fails_on_coalesced_stanza")
+    wire_bytes = None
     if n_coalesced and server.state == "transport":
         for i in range(n_coalesced):
             t = stanza(i, "s")
             server_sent.append(t)
-            server.send_frame(R.encode(t))
+            if case.get("wire") and n_coalesced >= 2 and i == n_coalesced - 1:
+                # the last of them is still on the wire: a task of its own puts it into the socket whenever the scheduler lets
+                # it - before, while or after the handshake thread hands the others upward
+                held = server.take_out()
+                server.send_frame(R.encode(t))
+                wire_bytes = server.take_out()
+                server.out += held
+            else:
+                server.send_frame(R.encode(t))
         nt = True
         out.label("coalesced")
     o = server.take_out()
     chunks = chunker(o)
     if len(chunks) >= 2:
         nt = True
+    if wire_bytes is not None:
+        # everything before it is in the socket already (in its chunks); the scheduler decides when the last stanza follows
+        for ch in chunks:
+            rig.deliver(ch)
+        rig.sched.spawn("wire", lambda: rig.deliver(wire_bytes))
+        out.label("last_coalesced_stanza_delivered_by_a_task_of_its_own")
+        rig.run()
+        chunks = []
     for ch in chunks:
         rig.deliver(ch)
         rig.run()
@@ -448,6 +465,7 @@ def case_strategy():
             "corrupt": draw(st.sampled_from([False] * 12 + [True, True] + DAMAGE)),
             "upper_raises": draw(st.sampled_from([0, 0, 0, 1, 1, 2, 3])),
             "eager": draw(st.booleans()),
+            "wire": draw(st.booleans()),
             "earlier": draw(st.one_of(st.none(), st.fixed_dictionaries({"passive": st.booleans(),
                                                                         "pushname": st.one_of(st.none(), st.text(min_size=1, max_size=12))}))),
             "real_profile": draw(st.sampled_from([False, False, True])),
@@ -503,6 +521,18 @@ def _enum_eager_sweep(limit):
     return factory
 
 
+def _enum_wire_sweep(limit):
+    """resumed login, the reply's read carries the first of two stanzas, the second is put into the socket by a task of its own:
+    one preemption at every yield point, any of the other ready tasks taking over"""
+    def factory():
+        for k in range(limit):
+            for sel in (0, 1, 2):
+                yield {"sub": "login", "variant": "IK", "phone": "4915112345", "passive": False, "pushname": None, "edge": None,
+                       "chunks": [], "coalesced": 2, "after_server": 1, "after_client": 0, "prefix": [], "corrupt": False,
+                       "choices": [], "preempt": [[k, sel]], "wire": True}
+    return factory
+
+
 def _enum_preemption_sweep(limit):
     """context bound 1, complete: one preemption at every yield point of the login (either other ready task), with server frames
     arriving in the same read as the handshake reply"""
@@ -521,7 +551,8 @@ def plan(tier):
     return {
         "shards": 16,
         "enumerations": [("basic_matrix", _enum_basic), ("single_preemption_sweep", _enum_preemption_sweep(260 if quick else 700)),
-                         ("eager_server_sweep", _enum_eager_sweep(260 if quick else 700))],
+                         ("eager_server_sweep", _enum_eager_sweep(260 if quick else 700)),
+                         ("wire_task_sweep", _enum_wire_sweep(260 if quick else 700))],
         "strategies": [("logins", case_strategy(), 60 if quick else 4000)],
         "shrink": "ddmin",
         "budget_s": 150 if quick else 1500,
